@@ -664,7 +664,9 @@ func vfC15Cases() []vfC15Case {
 	var out []vfC15Case
 	idx := 0
 	for _, ver := range []string{"12", "13"} {
-		layouts := [][2]int{{4, 4}, {8, 4}, {0, 8}, {8, 0}, {4, -1}}
+		// (the last two: very unequal lengths — a challenge carries the peer's ID, so its size and the size of
+		// what was received differ most there)
+		layouts := [][2]int{{4, 4}, {8, 4}, {0, 8}, {8, 0}, {4, -1}, {200, 1}, {1, 200}}
 		if vfThorough() {
 			layouts = append(layouts, [2]int{1, 1}, [2]int{16, 2}, [2]int{2, 20}, [2]int{32, 32}, [2]int{-1, 4})
 		}
